@@ -61,11 +61,24 @@ impl ItemDefinitionTypeEvaluator {
   /// Evaluates a type of item definition with specified type reference name.
   pub fn eval(&self, type_ref: &str) -> Option<FeelType> {
     if let Some(evaluator) = self.evaluators.get(type_ref) {
-      evaluator(self)
+      // an item definition may refer to itself (a tree node having a collection of tree nodes),
+      // such a nested reference to a type that is just being evaluated has the type `Any`
+      if EVALUATED_TYPE_REFS.with(|type_refs| type_refs.borrow().iter().any(|evaluated| evaluated == type_ref)) {
+        return Some(FeelType::Any);
+      }
+      EVALUATED_TYPE_REFS.with(|type_refs| type_refs.borrow_mut().push(type_ref.to_string()));
+      let feel_type = evaluator(self);
+      EVALUATED_TYPE_REFS.with(|type_refs| type_refs.borrow_mut().pop());
+      feel_type
     } else {
       None
     }
   }
+}
+
+thread_local! {
+  /// Names of item definitions whose types are just being evaluated.
+  static EVALUATED_TYPE_REFS: std::cell::RefCell<Vec<String>> = std::cell::RefCell::new(vec![]);
 }
 
 ///
